@@ -116,9 +116,9 @@ def rule_wrap(ctx: Ctx, clause="C13.1") -> RuleResult:
         rr.inst(f"{key}: run() absorbs ExitMainLoop and nothing broader", True, {"absorbed": sorted(sup)})
         if "ExitMainLoop" not in sup:
             rr.add(finding("WRAP", r, r.node, "run() does not absorb ExitMainLoop", construct="ExitMainLoop not absorbed"))
-        broad = sup & {"Exception", "BaseException"}
+        broad = sup - {"ExitMainLoop"}
         if broad:
-            rr.add(finding("WRAP", r, r.node, f"run() swallows {sorted(broad)}: exceptions from callbacks would not propagate", construct="run() swallows broad exceptions"))
+            rr.add(finding("WRAP", r, r.node, f"run() swallows {sorted(broad)} around the whole iteration - the callbacks included: a callback raising it does not stop the loop and the exception is never re-raised from run()", construct="run() swallows more than ExitMainLoop"))
     # trio: run() routes everything through _handle_main_loop_exception, which returns only for ExitMainLoop
     t = p.func(LOOPS["trio"] + "._handle_main_loop_exception")
     rr.inst("trio: only ExitMainLoop is absorbed", True)
@@ -513,6 +513,7 @@ from ..mutants import Mut  # noqa: E402
 _S = "urwid/event_loop/select_loop.py"
 _A = "urwid/event_loop/asyncio_loop.py"
 MUTANTS = [
+    Mut("select-run-suppresses-eintr", "urwid/event_loop/select_loop.py", "SelectEventLoop.run", "            while True:\n                self._loop()", "            while True:\n                with contextlib.suppress(InterruptedError):\n                    self._loop()", "WRAP|event_loop.select_loop.SelectEventLoop.run"),
     Mut("select-batch-calls-removed-watch", "urwid/event_loop/select_loop.py", "SelectEventLoop._loop", "            if self._watch_files.get(record.fd) is record.data:\n                record.data()\n                self._did_something = True", "            record.data()\n            self._did_something = True", "SNAP|event_loop.select_loop.SelectEventLoop._loop"),
     Mut("select-idle-pass-calls-removed", "urwid/event_loop/select_loop.py", "SelectEventLoop._entering_idle", "        for handle, callback in list(self._idle_callbacks.items()):\n            # a callback removed by an earlier one in this pass is not called\n            if handle in self._idle_callbacks:\n                callback()", "        for callback in list(self._idle_callbacks.values()):\n            callback()", "SNAP|event_loop.select_loop.SelectEventLoop._entering_idle"),
     Mut("tornado-handle-from-dict-size", "urwid/event_loop/tornado_loop.py", "TornadoEventLoop.watch_file", "        self._max_watch_handle += 1\n        handle = self._max_watch_handle\n", "        handle = len(self._watch_handles) + 1\n", "TAB|event_loop.tornado_loop.TornadoEventLoop.watch_file"),
